@@ -282,7 +282,7 @@ func (h *Runner) genStep() Step {
 			return Step{Op: "lfsckpt"}
 		case x < 36 && h.Cfg.Clients:
 			// a WAL transaction that spills frames into the log and rolls back; LiteFS checkpoints afterwards
-			st := Step{Op: "wabort", CkptMode: r.Intn(2)}
+			st := Step{Op: "wabort", CkptMode: r.Intn(2), Split: r.Chance(40)}
 			for i := 0; i < 1+r.Intn(4); i++ {
 				st.Aborted = append(st.Aborted, [2]uint64{uint64(1 + r.Intn(int(cur)+2)), h.nextContent()})
 			}
@@ -593,6 +593,15 @@ func (h *Runner) Exec(st Step) Obs {
 			if err = h.Pager.WriteWALFrames(fr, 0, false); err != nil {
 				h.Pager.EndWALWrite()
 				return
+			}
+			if st.Split {
+				// ... and is interrupted inside one more frame: the log ends after that frame's header
+				pg := uint32(1 + len(h.Ref.Pages)/2)
+				if err = h.Pager.WriteTornFrame(lfs.WALFrameSpec{Pgno: pg, Data: h.page(pg, h.nextContent(), uint32(len(h.Ref.Pages)), true)}); err != nil {
+					h.Pager.DropPending()
+					h.Pager.EndWALWrite()
+					return
+				}
 			}
 			h.Pager.DropPending()
 			h.Pager.EndWALWrite() // nothing committed: nothing to capture
